@@ -7,6 +7,7 @@ import (
 	"crypto/rand"
 	"errors"
 	"sync"
+	"time"
 
 	kmsv2 "github.com/aws/aws-sdk-go-v2/service/kms"
 	awsv1 "github.com/aws/aws-sdk-go/aws"
@@ -44,7 +45,8 @@ type KMSRegion struct {
 	FailGenerate bool
 	FailEncrypt  bool
 	FailDecrypt  bool
-	WrongDecrypt bool // Decrypt "succeeds" with bytes that are not the data key
+	WrongDecrypt bool          // Decrypt "succeeds" with bytes that are not the data key
+	Delay        time.Duration // real time every call to this region takes (a slow but healthy region)
 }
 
 // ErrKMSDown is the injected regional failure.
@@ -111,6 +113,7 @@ func (k *KMSRegion) unwrap(ct []byte) ([]byte, error) {
 }
 
 func (k *KMSRegion) generate(keyID string) (pt, ct []byte, err error) {
+	time.Sleep(k.Delay)
 	if k.FailGenerate {
 		k.log("GenerateDataKey", false)
 		return nil, nil, ErrKMSDown
@@ -131,6 +134,7 @@ func (k *KMSRegion) encrypt(keyID string, pt []byte) ([]byte, error) {
 	// the very slice the plugin passed in: if it is a private copy of the data key, the
 	// plugin is responsible for wiping it too
 	k.retain("Encrypt(input)", pt)
+	time.Sleep(k.Delay)
 	if k.FailEncrypt {
 		k.log("Encrypt", false)
 		return nil, ErrKMSDown
@@ -144,6 +148,7 @@ func (k *KMSRegion) encrypt(keyID string, pt []byte) ([]byte, error) {
 }
 
 func (k *KMSRegion) decrypt(ct []byte) ([]byte, error) {
+	time.Sleep(k.Delay)
 	if k.FailDecrypt {
 		k.log("Decrypt", false)
 		return nil, ErrKMSDown
